@@ -13,7 +13,7 @@ one of the 864 cells.
 namespace GoPlugin.Props.C14
 open GoPlugin Interop
 
-def pGood : Handshake.Params := ⟨true, true, 4, 50, 1, true, true⟩
+def pGood : Handshake.Params := ⟨true, true, 4, 50, 1, true, true, true⟩
 def iGood : Interop.Params := ⟨true, true, true, true, true⟩
 
 /-- **The whole matrix**: in every cell the composition of the plugin's printed line, the host's
